@@ -39,13 +39,15 @@ PLAN = {
                                              ("BFS_BlockedDL", 0, 0, 9, False), ("BFS_AckNack", 0, 0, 7, False)]},
     "C12": {"mc": ["MC_Names"], "gen": [("Gen_Names", 300, 6000, 32, False),
                                        # every short history of deleting / re-creating one topic name under a surviving subscription
-                                       ("BFS_RecreateTopic", 0, 0, 6, False)]},
+                                       ("BFS_RecreateTopic", 0, 0, 6, False),
+                                       # a subscription past its expiry time but not yet swept is still live (Get, pull, name clash)
+                                       ("BFS_GetExpired", 0, 0, 6, False)]},
     "C13": {"mc": ["MC_Seek"], "impl": ["MC_ImplSnap"], "impl_thorough": ["MC_ImplSnap_thorough", "MC_ImplSeek"], "gen": [("Gen_Seek", 120, 4000, 32, True), ("Gen_Snap", 80, 4000, 30, True), ("BFS_Snap", 0, 60000, 8, False)]},
     "C14": {"mc": ["MC_Timing"], "gen": [("Gen_Timing", 260, 6000, 30, True),
                                         # retention restarted by a seek that revives a message (to a time, to a snapshot)
                                         ("Gen_Snap", 60, 1500, 30, True), ("Gen_Seek", 60, 1500, 32, True),
                                         # retention of dead-letter forwarded copies (counted from the forwarding)
-                                        ("Gen_DeadLetter", 60, 1500, 32, True), ("BFS_DL", 0, 0, 8, False),
+                                        ("Gen_DeadLetter", 60, 1500, 32, True), ("BFS_DL", 0, 0, 8, False), ("BFS_GetExpired", 0, 0, 6, False),
                                         # the same short dead-letter histories with a delivery delay injected on the dead-letter subscription
                                         ("BFS_DLDelay", 0, 0, 9, False)]},
     "C15": {"mc": ["MC_Prune"], "gen": [("Gen_Prune", 200, 5000, 34, True), ("Gen_Names", 60, 1500, 32, True),
